@@ -181,6 +181,13 @@ func genC20(g *Gen, i int) Group {
 		tree = append(tree, Module{Kind: "module", Name: 1 + g.n(6), Mods: shared, Shared: sid}, Module{Kind: "module", Name: 1 + g.n(6), Mods: shared, Shared: sid})
 	}
 	tail := append(extraTail, queryOps(regs)...)
+	if g.p(0.3) {
+		// AddModules with a nil as its only entry, and with no entry at all: nothing happens
+		tail = append(tail, Op{Kind: "modules", Mods: []Module{{Kind: "nil"}}}, Op{Kind: "count"})
+		if g.p(0.5) {
+			tail = append(tail, Op{Kind: "modules"})
+		}
+	}
 	tail = append(tail, Op{Kind: "build"})
 	h := defaultHist()
 	h.NOps = 8
@@ -318,6 +325,7 @@ func genContainer(g *Gen, prop string, i int) Group {
 		finalClose = true
 	case "C11":
 		cfg.PDisposable = 0.9
+		cfg.PConflict = 0.08 // a set that would let a singleton outlive a scoped dependency must still be refused
 		cfg.MaxDeps = 4
 		cfg.NRegs = 5 + g.n(7)
 		h.PClose = 0.15
@@ -367,6 +375,9 @@ func genContainer(g *Gen, prop string, i int) Group {
 		h.MaxScopes = 6
 	}
 	regs := g.RegSet(cfg)
+	if prop == "C18" && i%9 == 4 {
+		return g.embeddedBuiltinCase(i)
+	}
 	if prop == "C07" && i%7 == 3 {
 		return g.aliasRemovalCase(i)
 	}
@@ -379,7 +390,7 @@ func genContainer(g *Gen, prop string, i int) Group {
 	if (prop == "C02" || prop == "C05" || prop == "C07" || prop == "C08" || prop == "C03") && i%11 == 9 {
 		return g.embeddedCase(i)
 	}
-	if (prop == "C10" || prop == "C14" || prop == "C12") && i%8 == 3 {
+	if (prop == "C10" || prop == "C14" || prop == "C12" || prop == "C15") && i%8 == 3 {
 		return g.multiOutCase(i)
 	}
 	if (prop == "C01" || prop == "C02" || prop == "C03" || prop == "C10" || prop == "C07") && i%8 == 6 {
@@ -828,6 +839,18 @@ func genC06(g *Gen, i int) Group {
 		}
 		return out
 	}
+	if i%5 == 2 {
+		// one output of a multi-output registration removed and replaced: the same history, built again and again
+		// (what runs first at Build is up to hash-map order; the outcome must not be)
+		one := g.multiOutCase(i).Cases[0]
+		var cs []Case
+		for v := 0; v < 6; v++ {
+			cp := make([]Op, len(one.Ops))
+			copy(cp, one.Ops)
+			cs = append(cs, Case{Name: fmt.Sprintf("%d/multi-out-again%d", i, v), Ops: cp})
+		}
+		return Group{Kind: "variants", Cases: cs}
+	}
 	var cases []Case
 	for v := 0; v < 6; v++ {
 		order := regs
@@ -941,7 +964,7 @@ func (g *Gen) wideTree(regs []*Reg, before []Op) []Op {
 	ops = append(ops, Op{Kind: "createscope", P: 0, Parent: 0, Ctx: pctx})
 	ops = append(ops, res(parent)...)
 	k := 3 + g.n(4)
-	var kids []int
+	var kids, kidCtx []int
 	ownCtx := g.p(0.5) // children with a context of their own are not woken by the parent's cancellation: only the parent's Close reaches them
 	nextCtx := maxCtx + 2
 	for j := 0; j < k; j++ {
@@ -950,6 +973,8 @@ func (g *Gen) wideTree(regs []*Reg, before []Op) []Op {
 		o := Op{Kind: "createscope", P: 0, Parent: parent}
 		if ownCtx {
 			o.Ctx = nextCtx
+			o.Derive = g.p(0.5) // as in `ctx, cancel := context.WithTimeout(parent.Context(), d)`
+			kidCtx = append(kidCtx, nextCtx)
 			nextCtx++
 		}
 		ops = append(ops, o)
@@ -958,6 +983,16 @@ func (g *Gen) wideTree(regs []*Reg, before []Op) []Op {
 	gc := parent + k + 1
 	ops = append(ops, Op{Kind: "createscope", P: 0, Parent: kids[g.n(len(kids))]})
 	ops = append(ops, res(gc)...)
+	if ownCtx && g.p(0.6) {
+		// one child's own context is cancelled: that child is closed, and says so, while its parent stays open
+		j := g.n(len(kids))
+		ops = append(ops, Op{Kind: "cancel", Ctx: kidCtx[j]})
+		if r := res(kids[j]); len(r) > 0 {
+			ops = append(ops, r[0])
+		}
+		ops = append(ops, Op{Kind: "createscope", P: 0, Parent: kids[j]})
+		ops = append(ops, res(parent)...)
+	}
 	switch {
 	case pctx != 0 && g.p(0.5):
 		ops = append(ops, Op{Kind: "cancel", Ctx: pctx})
@@ -1000,6 +1035,9 @@ func (g *Gen) multiOutCase(i int) Group {
 				fs = append(fs, Field{Ty: fs[3].Ty, Group: grp}) // a second member of the same group from the same constructor
 			}
 		}
+		if g.p(0.08) {
+			fs[1].Group = 1 + g.n(2) // a field with both tags: the registration is refused as a whole (F33)
+		}
 		g.rnd.Shuffle(len(fs), func(a, b int) { fs[a], fs[b] = fs[b], fs[a] })
 		m.Form = Form{Kind: "result", Fields: fs, Err: g.p(0.3)}
 		for _, f := range fs {
@@ -1031,11 +1069,12 @@ func (g *Gen) multiOutCase(i int) Group {
 		// the constructor leaves one of its plain outputs nil: nothing is provided for it, the constructor still
 		// runs once per Build / scope, and its other outputs are not replaced when the nil one is asked for
 		var cand []int
-		for k, id := range outs {
+		for k := range outs {
 			// a multi-return constructor can leave only an interface-typed return value nil in this sense (a nil
 			// pointer in a pointer-typed return value is an ordinary, if useless, instance); a result object skips
 			// every nil field
-			if id.group == 0 && (m.Form.Kind == "result" || id.ty >= 16) {
+			// (a group member left nil stays in the group as a nil element: F32)
+			if m.Form.Kind == "result" || m.Form.Rets[k] >= 16 {
 				cand = append(cand, k)
 			}
 		}
@@ -1053,7 +1092,29 @@ func (g *Gen) multiOutCase(i int) Group {
 	// something the newcomer and the consumer can depend on
 	base := &Reg{ID: g.nextRid, Life: Singleton, Form: Form{Kind: "ctor", Rets: []int{tys[7]}}, Dyn: []int{tys[7]}, CFail: []bool{false}}
 	g.nextRid++
-	ops = append(ops, Op{Kind: "add", Reg: base}, Op{Kind: "add", Reg: m})
+	ops = append(ops, Op{Kind: "add", Reg: base})
+	if m.Form.Kind == "result" && g.p(0.15) {
+		// one plain field's identity is taken already: the whole registration is refused, after some of its fields
+		// (group members among them) had been entered; nothing of it may stay behind
+		for _, f := range m.Form.Fields {
+			if f.Name == 0 && f.Group == 0 {
+				blk := &Reg{ID: g.nextRid, Life: g.life([3]int{1, 1, 1}), Form: Form{Kind: "ctor", Rets: []int{f.Ty}}, Dyn: []int{f.Ty % 16}, CFail: []bool{false}}
+				g.nextRid++
+				ops = append(ops, Op{Kind: "add", Reg: blk})
+				break
+			}
+		}
+	}
+	ops = append(ops, Op{Kind: "add", Reg: m}, Op{Kind: "count"}, Op{Kind: "slice"})
+	for _, f := range m.Form.Fields {
+		if f.Group != 0 && g.p(0.5) {
+			// one more member of that group from a plain constructor
+			mem := &Reg{ID: g.nextRid, Life: life, Form: Form{Kind: "ctor", Rets: []int{f.Ty}}, Dyn: []int{f.Ty % 16}, CFail: []bool{false}, Group: f.Group}
+			g.nextRid++
+			ops = append(ops, Op{Kind: "add", Reg: mem})
+			break
+		}
+	}
 	nprov := 0
 	if g.p(0.4) {
 		ops = append(ops, Op{Kind: "build"})
@@ -1080,7 +1141,13 @@ func (g *Gen) multiOutCase(i int) Group {
 			if nd >= 16 {
 				nd = g.n(16)
 			}
-			n := &Reg{ID: g.nextRid, Life: nl, Form: Form{Kind: "ctor", Params: []Param{{Dep: Dep{Ty: tys[7]}}}, Rets: []int{v.ty}}, Dyn: []int{nd}, CFail: []bool{false}, Name: v.name}
+			// the newcomer depends on something (it runs late), or on nothing: then whether it or the multi-output
+			// constructor runs first at Build is up to the order of a hash map
+			var nps []Param
+			if g.p(0.5) {
+				nps = []Param{{Dep: Dep{Ty: tys[7]}}}
+			}
+			n := &Reg{ID: g.nextRid, Life: nl, Form: Form{Kind: "ctor", Params: nps, Rets: []int{v.ty}}, Dyn: []int{nd}, CFail: []bool{false}, Name: v.name}
 			g.nextRid++
 			ops = append(ops, Op{Kind: "add", Reg: n}, Op{Kind: "count"})
 			replaced = true
@@ -1350,6 +1417,44 @@ func (g *Gen) embeddedCase(i int) Group {
 	}
 	ops = append(ops, Op{Kind: "close", P: 0, H: 1}, Op{Kind: "closeprovider", P: 0})
 	return Group{Cases: []Case{{Name: fmt.Sprintf("%d/embedded", i), Ops: ops}}}
+}
+
+// embeddedBuiltinCase (C18): the built-in injectables taken through embedded fields of a parameter object
+// (`struct{ godi.In; context.Context }`), for every lifetime, resolved in nested scopes: an embedded field is a
+// dependency like any other, so each construction receives its own scope's context / that very Scope / the provider.
+func (g *Gen) embeddedBuiltinCase(i int) Group {
+	shapes := [][]Param{
+		{{Emb: true, Dep: Dep{Ty: tCtx}}},
+		{{Emb: true, Dep: Dep{Ty: tScope}}, {Dep: Dep{Ty: 0}}},
+		{{Emb: true, Dep: Dep{Ty: tProv}}},
+		{{Dep: Dep{Ty: tScope}}, {Emb: true, Dep: Dep{Ty: tCtx}}},
+	}
+	var regs []*Reg
+	regs = append(regs, &Reg{ID: g.nextRid, Life: Singleton, Form: Form{Kind: "ctor", Rets: []int{0}}, Dyn: []int{0}, CFail: []bool{false}})
+	g.nextRid++
+	var tys []int
+	for k, ps := range shapes {
+		if g.p(0.75) {
+			t := 1 + k
+			regs = append(regs, &Reg{ID: g.nextRid, Life: g.life([3]int{1, 2, 2}), Form: Form{Kind: "ctor", InObj: true, Params: ps, Rets: []int{t}}, Dyn: []int{t}, CFail: []bool{false}})
+			g.nextRid++
+			tys = append(tys, t)
+		}
+	}
+	g.rnd.Shuffle(len(regs), func(a, b int) { regs[a], regs[b] = regs[b], regs[a] })
+	ops := addOps(regs)
+	ops = append(ops, Op{Kind: "build"}, Op{Kind: "createscope", P: 0, Parent: 0, Ctx: 1}, Op{Kind: "createscope", P: 0, Parent: 1},
+		Op{Kind: "createscope", P: 0, Parent: 2, Ctx: 2}, Op{Kind: "createscope", P: 0, Parent: 0})
+	for _, h := range g.rnd.Perm(5) {
+		for _, t := range tys {
+			ops = append(ops, Op{Kind: "resolve", P: 0, H: h, Ty: t})
+		}
+	}
+	for _, h := range []int{3, 1, 4} {
+		ops = append(ops, Op{Kind: "ctxvalue", P: 0, H: h}, Op{Kind: "fromcontext", P: 0, H: h})
+	}
+	ops = append(ops, Op{Kind: "close", P: 0, H: 1}, Op{Kind: "closeprovider", P: 0})
+	return Group{Cases: []Case{{Name: fmt.Sprintf("%d/embedded-builtins", i), Ops: ops}}}
 }
 
 // dupDepCase: one constructor that takes the same dependency twice (two positional parameters of one type, two
